@@ -1,4 +1,49 @@
 import OdxVerif.Common.Sexp
-/-! driver stub for the inherit family (to be written) -/
-open OdxVerif
-def main : IO Unit := driverMain fun _ => "(not-implemented)"
+import OdxVerif.Spec.Visible
+/-! line-protocol driver for the value-inheritance model and specification (property C09)
+
+request  `(inherit <layer> (names n …))`
+         `<layer>` = `(L <id> <KIND> (locals (<name> <tag>) …) (parents (<layer> <excluded name> …) …))`
+reply    `(model (ok (<name> <tag>) …)|(err odx)) (spec (wf t|f) (conflict t|f) (vis (<name> <tag>|none) …))`
+         the model's view is in dictionary order (the order of the `NamedItemList` odxtools builds) -/
+open OdxVerif OdxVerif.Inherit OdxVerif.Gen
+
+def parseKind (s : String) : Option LayerKind := LayerKind.all.find? fun k => k.odxName == s
+
+def parseObj : Sexp → Option Obj
+  | .list [a, b] => do pure ⟨← a.asNat?, ← b.asNat?⟩
+  | _ => none
+
+partial def parseLayer : Sexp → Option Layer
+  | .list [.atom "L", nm, .atom k, .list (.atom "locals" :: ls), .list (.atom "parents" :: ps)] => do
+    let nm ← nm.asNat?
+    let k ← parseKind k
+    let ls ← ls.mapM parseObj
+    let ps ← ps.mapM fun
+      | .list (l :: ex) => do
+        let l ← parseLayer l
+        let ex ← ex.mapM Sexp.asNat?
+        pure (l, ex)
+      | _ => none
+    pure (.mk nm k ls ps)
+  | _ => none
+
+def objStr (o : Obj) : String := s!"({o.name} {o.tag})"
+def tf (b : Bool) : String := if b then "t" else "f"
+
+def handle (sx : Sexp) : String :=
+  match sx with
+  | .list [.atom "inherit", l, .list (.atom "names" :: ns)] =>
+    match parseLayer l, ns.mapM Sexp.asNat? with
+    | some L, some ns =>
+      let m := match computeAvailable L with
+        | .ok objs => s!"(ok {" ".intercalate (objs.map objStr)})"
+        | .error .odx => "(err odx)"
+      let vis := ns.map fun n => match visible L n with
+        | some o => objStr o
+        | none => s!"({n} none)"
+      s!"(model {m}) (spec (wf {tf (wfB L)}) (conflict {tf (conflict L)}) (vis {" ".intercalate vis}))"
+    | _, _ => "(bad-args)"
+  | _ => "(bad-op)"
+
+def main : IO Unit := driverMain handle
